@@ -109,7 +109,10 @@ pub fn gen_ufo(r: &mut Rng, valid_only: bool) -> Ufo {
         }
         glyphs.sort();
         let info = if r.chance(1, 2) { next() } else { 0 };
-        u.layers.push(LayerU { name: n, written: d.clone(), dir: d, glyphs, info });
+        // layercontents.plist may spell a directory with trailing separators or a trailing `.`;
+        // as a path it is the same single component
+        let spelt = format!("{}{}", d, *r.pick(&["", "", "", "/", "//", "/."]));
+        u.layers.push(LayerU { name: n, written: spelt, dir: d, glyphs, info });
     }
     if !valid_only && r.chance(1, 3) {
         // entries the loader must refuse, in its order of checks
@@ -351,7 +354,13 @@ fn grel_text(w: &str) -> String {
 /// the former finding F23 (fixed by 8d15b4b): a default layer directory that is not written
 /// exactly `glyphs`; such a UFO must now be refused by every load
 pub fn class_f23(u: &Ufo) -> bool {
-    u.layers.iter().any(|l| Path::new(&l.written).file_name().map(|f| f == "glyphs").unwrap_or(false) && l.written != "glyphs")
+    // not a single normal component (`glyphs/`, `glyphs//`, `glyphs/.` ARE one: Path::components)
+    u.layers.iter().any(|l| {
+        let p = Path::new(&l.written);
+        let mut c = p.components();
+        let plain = matches!((c.next(), c.next()), (Some(std::path::Component::Normal(_)), None));
+        p.file_name().map(|f| f == "glyphs").unwrap_or(false) && !plain
+    })
 }
 fn gpath(rel: &str) -> String {
     let mut parts = vec!["\"u\"".to_string()];
@@ -405,7 +414,7 @@ fn greq(q: &Req) -> String {
 }
 pub fn filter_shapes(u: &Ufo, r: &mut Rng) -> Vec<Req> {
     let all_pairs: Vec<(String, String)> = u.layers.iter().map(|l| (l.name.clone(), l.written.clone())).collect();
-    let non_default: Vec<(String, String)> = all_pairs.iter().filter(|(_, d)| d != "glyphs").cloned().collect();
+    let non_default: Vec<(String, String)> = all_pairs.iter().filter(|(_, d)| Path::new(d) != Path::new("glyphs")).cloned().collect();
     let mut by_name = vec![];
     for p in &all_pairs {
         if r.chance(1, 2) {
@@ -423,7 +432,10 @@ pub fn filter_shapes(u: &Ufo, r: &mut Rng) -> Vec<Req> {
     ]
 }
 fn selected(q: &Req, name: &str, dir: &str) -> bool {
-    q.all || (q.default && dir == "glyphs") || q.custom.as_ref().map(|s| s.iter().any(|(a, b)| a == name && b == dir)).unwrap_or(false)
+    // paths are compared as paths (component-wise), like `path == Path::new("glyphs")` in the filter
+    q.all
+        || (q.default && Path::new(dir) == Path::new("glyphs"))
+        || q.custom.as_ref().map(|s| s.iter().any(|(a, b)| a == name && Path::new(b) == Path::new(dir))).unwrap_or(false)
 }
 
 /// files of un-requested parts (relative paths of plain files)
@@ -663,6 +675,15 @@ pub fn main(a: &Args) {
         let mut r = Rng::new(a.seed.wrapping_mul(0x9E37_79B9_7F4A_7C15) ^ ui.wrapping_mul(0xD1B5_4A32_D192_ED03) ^ 0x1717);
         // most UFOs are fully valid (the theorem's premise); some have invalid parts
         let mut u = gen_ufo(&mut r, ui % 4 != 3 || ui == n_ufos);
+        // some UFOs always spell the default directory differently (same path, other text)
+        if ui != n_ufos && ui % 4 != 3 && ui % 3 != 0 {
+            let sfx = ["/", "/.", "//"][(ui % 3) as usize % 3];
+            for l in u.layers.iter_mut() {
+                if l.dir == "glyphs" {
+                    l.written = format!("glyphs{}", sfx);
+                }
+            }
+        }
         if ui == n_ufos {
             for l in u.layers.iter_mut() {
                 if l.dir == "glyphs" {
